@@ -42,7 +42,8 @@ def u64():
 
 
 def node_ids():
-    return st.one_of(st.sampled_from(['', 'dtn://peer/', 'ipn:5.0', 'dtn://' + 'x' * 290 + '/']),
+    # (a NUL character is legal UTF-8 text on the wire, but cannot be part of a D-Bus string)
+    return st.one_of(st.sampled_from(['', 'dtn://peer/', 'ipn:5.0', 'dtn://' + 'x' * 290 + '/', 'dtn://peer/\x00', '\x00dtn://p/']),
                      st.text('abcdefghijklmnopqrstuvwxyz0123456789:/.-_é中', max_size=40))
 
 
